@@ -498,6 +498,9 @@ def write_dir(case, d):
     desc = {"syms": syms, "base": BASE, "tasks": tl, "max_stack": case["max_stack"]}
     if case.get("argspec"):
         desc["args"] = True
+    if case.get("perf"):
+        # {cpu: [[time, task index, "out"|"preempt"|"in"], ...]}: context-switch events of the perf source
+        desc["perf"] = {int(cpu): [(e[0], case["tasks"][e[1]]["tid"], e[2]) for e in evs] for cpu, evs in case["perf"].items()}
     datadir.write(desc, d, argspec=case.get("argspec"))
     # task.txt in creation order (a parent before its children); threads belong to the first root
     tasks = case["tasks"]
@@ -642,6 +645,12 @@ def parse_output(out, v, case):
             name = 0 if mm.group(1) == "some" else int(mm.group(1))
             if sp % 2 or vals["duration"] or vals["addr"]:
                 ok = False
+        elif re.fullmatch(r"/\* linux:sched-(in|out|out \(pre-empted\)) \*/", rest):
+            # a context-switch event of the perf source (sched cases only)
+            kind, indent = "S", sp // 2
+            name = {"in": 1, "out": 2, "out (pre-empted)": 3}[re.fullmatch(r"/\* linux:sched-(.*) \*/", rest).group(1)]
+            if sp % 2:
+                ok = False          # (the addr column shows the event id: not compared)
         elif rest == "/* inverted time: broken data? */" and blank_prefix:
             kind, indent = "W", (sp - 1) // 2
             if sp % 2 != 1:
@@ -764,6 +773,159 @@ def evaluate(ctx, items, name="cases"):
     return {k: coq.parse_nat_list(v) for k, v in res.items()}
 
 
+# ------------------------------------------------------------------ perf source: context-switch events
+def gen_sched_case(rng, k=0):
+    """a LOST-free task set + sched-out / sched-in pairs of its tasks in perf-cpuN.dat: each pair lies between two consecutive
+    records of its task (or after the last), with time stamps equal to / 1 ns around those records"""
+    while True:
+        case = gen_case1(rng, "small" if k % 3 else "medium")
+        if case["illformed"] or case.get("sess2") or any(r[1] == LOSTREC for t in case["tasks"] for r in t["recs"]):
+            continue
+        if any(t["parent"] is not None for t in case["tasks"]):
+            continue        # events in forked children (inherited frames) are not modelled
+        if any(t["recs"] for t in case["tasks"]):
+            break
+    ncpu = rng.choice([1, 2, 2, 3])
+    perf = {c: [] for c in range(ncpu)}
+    for ti, t in enumerate(case["tasks"]):
+        rs = t["recs"]
+        if not rs or rng.random() < 0.15:
+            continue
+        js = sorted(rng.sample(range(len(rs)), min(len(rs), rng.choice([1, 1, 2, 3]))))
+        js = [j for n, j in enumerate(js) if n == 0 or j - js[n - 1] > 1]
+        for j in js:
+            lo = rs[j][0]
+            hi = rs[j + 1][0] if j + 1 < len(rs) else lo + rng.choice([1, 2, 1000, 5000])
+            if hi <= lo:
+                continue
+            a = rng.choice([lo, lo, lo, lo + 1, lo + (hi - lo) // 2])
+            b = rng.choice([hi, hi, hi, hi - 1, a + 1])
+            a = min(a, hi - 1)
+            b = max(min(b, hi), a + 1)
+            perf[rng.randrange(ncpu)].append([a, ti, rng.choice(["out", "out", "preempt"])])
+            perf[rng.randrange(ncpu)].append([b, ti, "in"])
+    for c in perf:
+        perf[c].sort(key=lambda e: e[0])            # stable: a cpu's events in time order
+    # a sched-in queued behind another task's event of the same time on the same cpu cannot overtake it (file order):
+    # outside the tie rule (see manifest) - such a sched-in goes to a cpu of its own
+    for c in list(perf):
+        keep = []
+        for e in perf[c]:
+            if e[2] == "in" and keep and keep[-1][0] == e[0] and keep[-1][1] != e[1]:
+                perf[len(perf)] = [e]
+            else:
+                keep.append(e)
+        perf[c] = keep
+    case["perf"] = {str(c): evs for c, evs in perf.items()}
+    # the virtual schedule frame needs a slot of its own above the deepest call
+    maxd = max([r[2] for t in case["tasks"] for r in t["recs"]] or [0])
+    case["max_stack"] = max(case["max_stack"], maxd + 3)      # (the comment line looks at the slot above it too)
+    return case
+
+
+def sched_hand_cases():
+    base = {"names": ["main", "alpha", "beta"], "forks": [], "max_stack": 1024, "illformed": False, "sess2": None}
+    one = lambda recs, evs: dict(base, tasks=[{"tid": 100, "parent": None, "recs": recs}], perf={"0": evs})
+    return [
+        # sched-out at the time of EXIT alpha (the user record comes first), sched-in one ns before the next record
+        one([[1000, E, 0, 0], [2000, E, 1, 1], [3000, X, 1, 1], [6000, X, 0, 0]], [[3000, 0, "out"], [5000, 0, "in"]]),
+        # sched-in at the time of EXIT alpha (repaired defect: the sched-in comes first)
+        one([[1000, E, 0, 0], [2000, E, 1, 1], [5000, X, 1, 1], [6000, X, 0, 0]], [[3000, 0, "out"], [5000, 0, "in"]]),
+        # sched-in at the time of ENTRY beta, sched-out at the time of EXIT alpha
+        one([[1000, E, 0, 0], [2000, E, 1, 1], [3000, X, 1, 1], [5000, E, 1, 2], [5500, X, 1, 2], [6000, X, 0, 0]],
+            [[3000, 0, "out"], [5000, 0, "in"]]),
+        # two tasks, two cpus, the task migrates
+        dict(base, tasks=[{"tid": 100, "parent": None, "recs": [[1000, E, 0, 0], [2000, E, 1, 1], [3000, X, 1, 1], [7000, X, 0, 0]]},
+                          {"tid": 101, "parent": None, "recs": [[1500, E, 0, 2], [2500, E, 1, 1], [3000, X, 1, 1], [3500, X, 0, 2]]}],
+             perf={"0": [[3000, 0, "preempt"], [3000, 1, "out"]], "1": [[3400, 1, "in"], [5000, 0, "in"]]}),
+    ]
+
+
+def coq_xline(l):
+    if l[0] == "S":
+        return "XE %d%%nat %d %d %d %d" % (l[1], l[2], l[3], l[4], l[6])
+    return "XL (%s)" % coq_line(l)
+
+
+SCHED_FIELDS = [["duration", "tid", "time"], ["duration", "tid"], ["duration", "tid", "addr", "time"]]
+PRE_X = PRE + "Require Import UV.C06.Sched.\n"
+
+
+def run_sched(ctx, objdir, cases, name="xcases"):
+    """data with perf context-switch events: the real `replay --no-merge` against the model replay_x (tie rule of the code)
+    and the property checker ok_sched"""
+    items = []
+    for case in cases:
+        d = os.path.join(ctx.scratch, "xdata")
+        write_dir(case, d)
+        n = len(case["tasks"])
+        sels = [None]
+        if n > 1:
+            from props import c18 as _c18   # parent-closed selections
+            sels.append(_c18.closed_sel(ctx.rng, case))
+        obs = []
+        for vi, sel in enumerate(sels):
+            v = {"fold": False, "sel": sel, "fields": SCHED_FIELDS[(len(items) + vi) % len(SCHED_FIELDS)] if vi == 0 else SCHED_FIELDS[0],
+                 "column": None, "newline": False}
+            o, raw = run_variant(objdir, d, case, v)
+            if o is None:
+                ctx.violation("uftrace replay failed on a directory with perf context-switch events: %s" % raw,
+                              {"sched_case": case, "variant": v}, True)
+                continue
+            obs.append((v, o[0]))
+        items.append((case, obs))
+        evs = [e for c in case["perf"].values() for e in c]
+        times = {(ti, r[0]): r[1] for ti, t in enumerate(case["tasks"]) for r in t["recs"]}
+        tags = ["perf-sched", "cpus=%d" % len(case["perf"])]
+        for e in evs:
+            ty = times.get((e[1], e[0]))
+            if ty is not None:
+                tags.append("sched-%s-ties-%s" % ("in" if e[2] == "in" else "out", "ENTRY" if ty == E else "EXIT"))
+            elif (e[1], e[0] - 1) in times or (e[1], e[0] + 1) in times:
+                tags.append("sched-1ns-from-record")
+        for v, o in obs:
+            ctx.case(key=("sched", repr([t["recs"] for t in case["tasks"]]), repr(case["perf"]), repr(v["sel"]), repr(v["fields"])),
+                     nontrivial=bool(evs), tags=sorted(set(tags)) + (["--tid"] if v["sel"] else []), size=len(o))
+    if not items:
+        return
+    kinds = {"in": 1, "out": 2, "preempt": 3}
+    defs = []
+    for ci, (case, obs) in enumerate(items):
+        cpus = "; ".join("[%s]" % "; ".join("mkpev %d %d%%nat %d" % (e[0], e[1], kinds[e[2]]) for e in case["perf"][c])
+                         for c in sorted(case["perf"], key=int))
+        vs = ";\n ".join("(%s, F %s, [%s])" % (
+            "None" if v["sel"] is None else "(Some [%s])" % "; ".join("%d%%nat" % i for i in v["sel"]),
+            " ".join(coq.coq_bool(x in v["fields"]) for x in ["duration", "tid", "addr", "time", "delta", "elapsed"]),
+            "; ".join(coq_xline(l) for l in o)) for v, o in obs)
+        defs.append("Definition c%d : xcase := ([%s], [%s], [%s], [%s])." % (
+            ci, "; ".join(str(fid(case, k)) for k in case["forks"]), ";\n ".join(coq_task(t, case) for t in case["tasks"]), cpus, vs))
+    defs.append("Definition cases : list xcase := [%s]." % "; ".join("c%d" % i for i in range(len(items))))
+    res = coq.run_cases(ctx, name, PRE_X, "\n".join(defs), [
+        ("mismatch", "bad_indices (fun b : bool => b) (flat_map (agree_xcase tie_sched_in_first) cases) 0"),
+        ("violations", "bad_indices (fun b : bool => b) (flat_map check_xcase cases) 0"),
+    ])
+    if res is None:
+        return
+    flat = [(ci, vi) for ci, (case, obs) in enumerate(items) for vi in range(len(obs))]
+    bad = coq.parse_nat_list(res["violations"])
+    mis = coq.parse_nat_list(res["mismatch"])
+    for k in bad[:3]:
+        ci, vi = flat[k]
+        case, obs = items[ci]
+        ctx.violation("C06 violated with perf context-switch events: the user calls `uftrace replay %s` shows do not have the "
+                      "durations (exit - entry) / nesting they have without the events, or a sched-in does not show the time "
+                      "its task was switched out" % " ".join(variant_args(obs[vi][0], case)),
+                      {"sched_case": case, "variant": obs[vi][0], "observed": obs[vi][1]}, True)
+    if mis and not bad:
+        ci, vi = flat[mis[0]]
+        case, obs = items[ci]
+        ctx.violation("model (C06.Sched.replay_x) and implementation of replay disagree on %d (case, variant) pairs with perf "
+                      "events; the property checker accepts the implementation's output" % len(mis),
+                      {"correspondence": "C06.Sched.replay_x vs `uftrace replay --no-merge`", "sched_case": case,
+                       "variant": obs[vi][0], "observed": obs[vi][1]}, False)
+    ctx.extra["disagreements_checked"] = ctx.extra.get("disagreements_checked", 0) + len(mis)
+
+
 # ------------------------------------------------------------------ entry points
 def common_meta(ctx):
     ctx.rule = ("a case = one generated task set (1-6 tasks: threads, forked children starting with k EXITs or inside fork(), "
@@ -778,7 +940,8 @@ def common_meta(ctx):
         "synthetic data directory writer vf/datadir.py (+ task.txt writer in props/c06.py) and the stdout parser of props/c06.py",
     ]
     ctx.assume = [
-        "records are ENTRY/EXIT of user functions and the LOST marker of libmcount (no EVENT, no kernel/perf/extern data, no arguments)",
+        "records are ENTRY/EXIT of user functions and the LOST marker of libmcount (no EVENT, no kernel/extern data, no arguments); perf "
+        "context-switch events only in the sched cases (--no-merge view, no forked children, no LOST, events after the task's first record)",
         "nesting depth < hdr.max_stack <= 1024 (default -D), no -t/-F/-N/-T/-r options, one session, symbols resolve",
         "fix-up symbols fork/vfork/daemon, exec*, *setjmp*, *longjmp* are modelled (ids carry the class); the property checker is applied to streams of plain functions, jump/exec streams are compared with the model only",
         "--tid: presentation fields (-f without tid/duration) are compared with the full view only under parent-closed selections; a forked child selected without its parent continues at its inherited stack depth (modelled; the repaired defect tid-child-without-parent has a dedicated witness)",
@@ -952,6 +1115,10 @@ def run(ctx):
         part = items[s:s + chunk]
         res = evaluate(ctx, part, "cases%d" % (s // chunk))
         verdict(ctx, part, res)
+    # the perf source: context-switch events tied with / next to the records of their task
+    xcases = sched_hand_cases() + [gen_sched_case(rng, k) for k in range(ctx.n(30, 400))]
+    for s in range(0, len(xcases), 80):
+        run_sched(ctx, objdir, xcases[s:s + 80], "xcases%d" % (s // 80))
 
 
 def replay(ctx, obj):
@@ -959,6 +1126,9 @@ def replay(ctx, obj):
     objdir = setup(ctx)
     if obj.get("known_finding") == KF_KEY:
         known_witness(ctx, objdir)
+        return
+    if obj.get("sched_case"):
+        run_sched(ctx, objdir, [obj["sched_case"]], "replay_x")
         return
     case = obj.get("case")
     if not case:
